@@ -115,6 +115,17 @@ def check_decl(dc, st, tier, only=None):
         return
     budget = 10000 if tier == 'quick' else 70000
     accepted = []
+    # long values: the delimiter / the end of the declared size lies 255, 256, 4095, 4096, 4097, 8192 ... bytes away (io buffer
+    # sizes, a default search window someone might introduce), for the flat programs
+    fnames = [n for n, _ in dc.P['fields']]
+    node = dict(dc.P['fields']).get('d') or {}
+    if dc.P['name'] == 'K' and fnames in (['pre', 'd', 'post'], ['pre', 'd']) and node.get('k') == 'data' and node.get('mode') in ('marker', 'regex'):
+        delim = node.get('m') if node['mode'] == 'marker' else b'X'
+        sizes = (254, 255, 256, 257, 1023, 4093, 4094, 4095, 4096, 4097, 8191, 8192, 8193) + ((16384, 65535, 65536, 70000) if tier == 'thorough' else ())
+        for N in sizes:
+            body = bytes(0x71 + (i % 5) for i in range(N))
+            for raw in (b'\x01' + body + delim + b'\x09', b'\x01' + body + delim, b'\x01' + body):
+                check_one(dc, st, raw, ea.ref_parse(dc.P, raw))
     for raw, r in ea.inputs_for(dc, budget, ext=False):
         check_one(dc, st, raw, r)
         if r[0] == 'ok' and len(raw) >= 3:
